@@ -29,6 +29,7 @@ def main():
             a = sh(f'git -C {wt} apply --3way {d}/patch.diff')
         if a.returncode != 0:
             rows.append((name, pid, 'patch does not apply to HEAD', ''))
+            print(rows[-1], flush=True)
             sh(f'git -C /repo worktree remove --force {wt}')
             continue
         t0 = time.time()
